@@ -214,6 +214,7 @@ struct WorkerState {
     current: Option<(u64, Instant)>,
     done: bool,
     next_after_crash: u64,
+    last_done: Option<u64>,
 }
 
 fn spawn_worker(prop: &str, tier: &str, seed: u64, i: usize, w: usize, ncases: u64, start: u64, tx: &mpsc::Sender<Msg>) -> Child {
@@ -278,6 +279,62 @@ fn run_single_case_subprocess(prop: &str, tier: &str, seed: u64, idx: u64, timeo
     }
 }
 
+/// Does replaying `case` in a fresh process kill that process (signal / abnormal exit)?
+fn replay_kills_process(prop: &str, world_name: &str, case: &Value, timeout: Duration) -> bool {
+    let dir = format!("{VERIF}/replays/tmp");
+    let _ = std::fs::create_dir_all(&dir);
+    let path = format!("{dir}/min-{}.json", std::process::id());
+    let v = json!({"property": prop, "world": world_name, "violation": "abort", "case": case});
+    if std::fs::write(&path, v.to_string()).is_err() {
+        return false;
+    }
+    let exe = std::env::current_exe().unwrap();
+    let mut child = match Command::new(exe).args(["replay-inner", &path]).stdin(Stdio::null()).stdout(Stdio::null()).stderr(Stdio::null()).spawn() {
+        Ok(c) => c,
+        Err(_) => return false,
+    };
+    let t0 = Instant::now();
+    let res = loop {
+        match child.try_wait() {
+            Ok(Some(st)) => break !matches!(st.code(), Some(0) | Some(1) | Some(2)),
+            Ok(None) => {
+                if t0.elapsed() > timeout {
+                    let _ = child.kill();
+                    let _ = child.wait();
+                    break false;
+                }
+                std::thread::sleep(Duration::from_millis(2));
+            },
+            Err(_) => break false,
+        }
+    };
+    let _ = std::fs::remove_file(&path);
+    res
+}
+
+/// Greedy minimisation of a case that kills the worker: every candidate is judged in a subprocess.
+fn minimise_crash(world: &dyn World, prop: &str, case: Value, budget: usize) -> Value {
+    let mut cur = case;
+    let mut used = 0;
+    loop {
+        let mut progressed = false;
+        for c in world.shrink_candidates(&cur) {
+            if used >= budget {
+                return cur;
+            }
+            used += 1;
+            if replay_kills_process(prop, world.world_name(), &c, Duration::from_secs(20)) {
+                cur = c;
+                progressed = true;
+                break;
+            }
+        }
+        if !progressed {
+            return cur;
+        }
+    }
+}
+
 fn check(args: &[String]) -> i32 {
     let prop = args[0].clone();
     let tier = std::env::var("VERIF_TIER").ok().filter(|t| t == "quick" || t == "thorough").unwrap_or_else(|| args.get(1).cloned().unwrap_or_else(|| "quick".into()));
@@ -301,7 +358,7 @@ fn check(args: &[String]) -> i32 {
 
     let (tx, rx) = mpsc::channel::<Msg>();
     let mut workers: Vec<WorkerState> = (0..w)
-        .map(|i| WorkerState { child: spawn_worker(&prop, &tier, seed, i, w, ncases, 0, &tx), current: None, done: false, next_after_crash: 0 })
+        .map(|i| WorkerState { child: spawn_worker(&prop, &tier, seed, i, w, ncases, 0, &tx), current: None, done: false, next_after_crash: 0, last_done: None })
         .collect();
 
     let mut stats = Stats::default();
@@ -343,6 +400,7 @@ fn check(args: &[String]) -> i32 {
                         }
                         digests.insert(idx, dg);
                         workers[i].current = None;
+                        workers[i].last_done = Some(idx);
                     },
                     "V" => {
                         let f: Vec<&str> = rest.splitn(4, ' ').collect();
@@ -351,6 +409,7 @@ fn check(args: &[String]) -> i32 {
                         let v: Value = serde_json::from_str(f[3]).unwrap_or(Value::Null);
                         evaluations += 1;
                         digests.insert(idx, dg ^ 0xBAD);
+                        workers[i].last_done = Some(idx);
                         findings.push(Finding {
                             idx,
                             class: v["class"].as_str().unwrap_or("?").to_string(),
@@ -365,6 +424,7 @@ fn check(args: &[String]) -> i32 {
                         let dg: u64 = f[2].parse().unwrap_or(0);
                         evaluations += 1;
                         digests.insert(idx, dg ^ 0xF1D);
+                        workers[i].last_done = Some(idx);
                         *known_hits.entry(f[3].to_string()).or_insert(0) += 1;
                         workers[i].current = None;
                     },
@@ -423,8 +483,19 @@ fn check(args: &[String]) -> i32 {
                         } else {
                             workers[i].done = true;
                         }
+                    } else if let Some(last) = workers[i].last_done {
+                        // died between two cases (e.g. heap corruption noticed by the allocator while
+                        // the harness was cleaning up): attribute it to the case that had just finished
+                        crashed_cases.push((last, format!("{:?} after the case had been judged", status)));
+                        let next = last + w as u64;
+                        crash_restarts += 1;
+                        if next < ncases && crash_restarts <= 12 {
+                            workers[i].child = spawn_worker(&prop, &tier, seed, i, w, ncases, next, &tx);
+                        } else {
+                            workers[i].done = true;
+                        }
                     } else {
-                        harness_errors.push(format!("worker {i} exited unexpectedly with {:?} outside a case", status));
+                        harness_errors.push(format!("worker {i} exited unexpectedly with {:?} before its first case", status));
                         workers[i].done = true;
                     }
                 }
@@ -454,6 +525,11 @@ fn check(args: &[String]) -> i32 {
         if r != Some(0) {
             let mut rng = Rng::for_case(seed, domain(&prop), *idx);
             let case = world.gen(&mut rng, thorough);
+            let case = if replay_kills_process(&prop, world.world_name(), &case, Duration::from_secs(60)) {
+                minimise_crash(world.as_ref(), &prop, case, 300)
+            } else {
+                case
+            };
             let detail = format!("worker process died while running the case ({st}); re-run alone: {:?}", r);
             let path = write_replay(&prop, world.world_name(), seed, *idx, "abort", &detail, &case, "crash");
             confirmed.push(Finding { idx: *idx, class: "abort".into(), detail, replay: path });
@@ -721,7 +797,7 @@ fn miri_replay(v: &Value, path: &str) -> i32 {
     1
 }
 
-fn replay(args: &[String]) -> i32 {
+fn replay_inner(args: &[String]) -> i32 {
     install_panic_hook();
     let path = &args[0];
     let text = match std::fs::read_to_string(path) {
@@ -773,6 +849,46 @@ fn replay(args: &[String]) -> i32 {
     }
 }
 
+/// `replay <file>`: executes the case in a child process so that a case which kills the process
+/// (stack overflow, SIGSEGV under the guard-page allocator, abort) or never returns is still
+/// reported as a VIOLATION with exit code 1.
+fn replay(args: &[String]) -> i32 {
+    let path = &args[0];
+    let exe = std::env::current_exe().unwrap();
+    let mut child = match Command::new(exe).args(["replay-inner", path]).stdin(Stdio::null()).spawn() {
+        Ok(c) => c,
+        Err(e) => {
+            eprintln!("HARNESS-ERROR: cannot spawn replay process: {e}");
+            return 2;
+        },
+    };
+    let t0 = Instant::now();
+    let prop = std::fs::read_to_string(path).ok().and_then(|t| serde_json::from_str::<Value>(&t).ok()).and_then(|v| v["property"].as_str().map(|s| s.to_string())).unwrap_or_default();
+    loop {
+        match child.try_wait() {
+            Ok(Some(st)) => match st.code() {
+                Some(c @ 0..=2) => return c,
+                other => {
+                    println!("VIOLATION property={prop} replay={path}");
+                    println!("  class=abort the process executing the case died ({:?})", other.map(|c| c.to_string()).unwrap_or_else(|| format!("{st}")));
+                    return 1;
+                },
+            },
+            Ok(None) => {
+                if t0.elapsed() > Duration::from_secs(600) {
+                    let _ = child.kill();
+                    let _ = child.wait();
+                    println!("VIOLATION property={prop} replay={path}");
+                    println!("  class=hang the case did not finish within 600 s");
+                    return 1;
+                }
+                std::thread::sleep(Duration::from_millis(10));
+            },
+            Err(_) => return 2,
+        }
+    }
+}
+
 fn gen_cmd(args: &[String]) -> i32 {
     let prop = &args[0];
     let thorough = args[1] == "thorough";
@@ -796,6 +912,7 @@ fn main() {
         "check" => check(&args[1..]),
         "worker" => worker(&args[1..]),
         "replay" => replay(&args[1..]),
+        "replay-inner" => replay_inner(&args[1..]),
         "gen" => gen_cmd(&args[1..]),
         _ => 2,
     };
